@@ -143,7 +143,7 @@ func (c *Ctx) bigFromUnsigned(rule string, exc map[string]string, rels ...string
 			}
 			if !lossy {
 				c.ok(rule, key, cl.Pos(), "the int64 argument does not come from a 64-bit unsigned value")
-			} else if why, ok := exc[key]; ok {
+			} else if why, ok := excLookupS(exc, key); ok {
 				c.exc(rule, key, cl.Pos(), why)
 			} else {
 				c.bad(rule, key, cl.Pos(), fmt.Sprintf("%s receives a 64-bit unsigned value converted to int64: values of 2^63 and above become negative big integers (in %s)", shortQ(q), fnName(f)))
@@ -201,7 +201,7 @@ func (c *Ctx) cursorFreeEncoders(rule string, exc map[string]string, rels ...str
 			})
 			if reset {
 				c.ok(rule, key, cl.Pos(), "the read cursor is reset before the cursor-dependent query")
-			} else if why, ok := exc[key]; ok {
+			} else if why, ok := excLookupS(exc, key); ok {
 				c.exc(rule, key, cl.Pos(), why)
 			} else {
 				c.bad(rule, key, cl.Pos(), fmt.Sprintf("%s consults %s of a value it is encoding without resetting its read cursor first: the encoding depends on how much of the value was read before", fnName(f), fn.Name()))
@@ -311,7 +311,7 @@ func (c *Ctx) copyLiterals(rule string, exc map[string]string, rels ...string) i
 				}
 				n++
 				key := fmt.Sprintf("%s literal field %s <- .%s", fnName(f), name, s.field)
-				if why, ok := exc[key]; ok {
+				if why, ok := excLookupS(exc, key); ok {
 					c.exc(rule, key, s.pos, why)
 				} else {
 					c.bad(rule, key, s.pos, fmt.Sprintf("%s copies a value field by field (%d fields from their namesakes) but fills %s from the source's %s although the source has a %s of the same type: one field is written twice and %s is lost", fnName(f), same[s.base], name, s.field, name, name))
